@@ -6,35 +6,50 @@ Property theorems only.  Model: `Model/Include.lean`, an index-faithful transcri
 `src/tokenizer.rs` (the wrapper of `tokenize_core` that resolves `/include` directives by recursively tokenizing the
 included files) and of `make_include_filename` / `load` of `src/loader.rs`, in which every slice, index and `usize`
 subtraction has an explicit `panic` outcome; `tokenize_core` is `A2l.Lex.tokenize` (C03).  The file system is an
-arbitrary map `fs : Path → Option Bytes`; the recursion runs on fuel (`fuel = 0 → .hang`).  The model agrees
-with the real implementation on the 3000 recorded cases (`testdata/difftest.sh`).
+arbitrary map `fs : Path → Option Bytes`.  `tokenize fs n` is `tokenize_nested(.., depth)` with
+`n = MAX_INCLUDE_DEPTH - depth` (the *depth budget*: the number of levels that may still be nested below the
+file); the entry point `tokenize(..)` is `tokenizeTop fs = tokenize fs 64`.  At budget `0` a directive with a usable
+name is the `IncludeFileError` of a file that cannot be loaded.  The recursion is structural in the budget, so the
+model is total (`tokenize_total`); the outcome `.hang` exists only because the lexer model has one (it does not
+occur there either: `Lex.lex_no_hang`).  The model agrees with the real implementation on the recorded cases
+(`testdata/difftest.sh`).
 
-All theorems hold for every file map, every file name, every content and every fuel; there is no size bound.
-`.hang` at fuel `n` means "the include depth reaches `n`"; a result other than `.hang` does not depend on the fuel
-(`fuel_irrelevant`), and the self-including file gives `.hang` for every fuel (`self_include_hangs`).
+All theorems hold for every file map, every file name, every content and every depth budget; there is no size
+bound.  The budget matters for one kind of result only: an `IncludeFileError` (`depth_budget_irrelevant`); such an
+error is that of a reachable missing file — the same under every larger budget
+(`missing_include_budget_irrelevant`) — or that of the depth limit (`include_file_error_cases`).  The
+self-including file gives the `IncludeFileError` of its innermost level for every budget (`self_include_is_error`).
 
 Specifications (Lemmas/Include.lean): `walk` (the splice as a recursion over the token list, same outcome type as
-the model), `expandToks`/`expand` ((kind, text) stream of the inline expansion), `expandIToks`/`expandI` (the same
-with file ids).
+the model; its recursive call is an `Option`, `none` at budget `0`: `deeper`), `expandToks`/`expand` ((kind, text)
+stream of the inline expansion, with the same depth budget), `expandIToks`/`expandI` (the same with file ids).
 -/
 namespace A2l.Inc
 open A2l.Lex (Bytes TokType)
 
 /-! ### 0. the index arithmetic implements the walk -/
 
+/-- the entry point: `tokenize(filename, fileid, filetext)` = `tokenize_nested(.., depth = 0)`, budget 64 -/
+theorem tokenize_entry (fs : FS) (fn : Filename) (fid : Nat) (b : Bytes) :
+    tokenizeTop fs fn fid b = tokenize fs 64 fn fid b := rfl
+
 /-- **`tokenize` = `tokenize_core`, then the walk**: the vector `include_directives`, the sentinel, the loop
-    `for idx in 1..len` with `token_subseq = input_tokens[dirs[idx-1]+1 .. dirs[idx]]`, the quote stripping and
-    `&filetext[start..end]` compute exactly the list recursion `walk` — for every outcome (ok, each error, hang) -/
+    `for idx in 1..len` with `token_subseq = input_tokens[dirs[idx-1]+1 .. dirs[idx]]`, the quote stripping,
+    `&filetext[start..end]` and the depth test compute exactly the list recursion `walk` — for every outcome (ok,
+    each error).  The recursive call of the walk is `deeper fs n`: none at budget `0`, `tokenize fs m` at `m + 1` -/
 theorem tokenize_is_walk (fs : FS) (n : Nat) (fn : Filename) (fid : Nat) (b : Bytes) :
-    tokenize fs (n + 1) fn fid b =
+    tokenize fs n fn fid b =
       match Lex.tokenize b with
       | .err k l => .err (.Lex fn.display k l)
       | .panic => .panic
       | .hang => .hang
-      | .ok lt => finish (walk (tokenize fs n) fs fn b (lt.map (Tok.ofLex fid)) (St.init fn fid b)) :=
-  tokenize_succ fs n fn fid b
+      | .ok lt => finish (walk (deeper fs n) fs fn b (lt.map (Tok.ofLex fid)) (St.init fn fid b)) :=
+  tokenize_walk fs n fn fid b
 
-/-! ### 1. no panic -/
+theorem deeper_zero (fs : FS) : deeper fs 0 = none := rfl
+theorem deeper_succ (fs : FS) (m : Nat) : deeper fs (m + 1) = some (tokenize fs m) := rfl
+
+/-! ### 1. no panic, termination -/
 
 /-- **no panic**: the indices into `include_directives` and `input_tokens`, the slices `input_tokens[a..e]`,
     `filebytes[filename_start]`, `filebytes[filename_end - 1]` and `&filetext[filename_start..filename_end]` are in
@@ -42,6 +57,23 @@ theorem tokenize_is_walk (fs : FS) (n : Nat) (fn : Filename) (fid : Nat) (b : By
 theorem splice_no_panic (fs : FS) (n : Nat) (fn : Filename) (fid : Nat) (b : Bytes) :
     tokenize fs n fn fid b ≠ .panic :=
   tokenize_no_panic fs n fn fid b
+
+/-- **total**: for every depth budget the result is a token vector or a `TokenizerError` — no panic, and no
+    non-termination: the recursion is structural in the budget, and the one `.hang` the model can hand on, that of
+    the lexer model, does not occur (`Lex.lex_no_hang`) -/
+theorem tokenize_total (fs : FS) (n : Nat) (fn : Filename) (fid : Nat) (b : Bytes) :
+    (∃ r, tokenize fs n fn fid b = .ok r) ∨ (∃ e, tokenize fs n fn fid b = .err e) := by
+  have h1 := tokenize_no_panic fs n fn fid b
+  have h2 := tokenize_no_hang fs n fn fid b
+  cases h : tokenize fs n fn fid b with
+  | ok r => exact .inl ⟨r, rfl⟩
+  | err e => exact .inr ⟨e, rfl⟩
+  | panic => exact absurd h h1
+  | hang => exact absurd h h2
+
+theorem tokenize_no_hang_no_panic (fs : FS) (n : Nat) (fn : Filename) (fid : Nat) (b : Bytes) :
+    tokenize fs n fn fid b ≠ .hang ∧ tokenize fs n fn fid b ≠ .panic :=
+  ⟨tokenize_no_hang fs n fn fid b, tokenize_no_panic fs n fn fid b⟩
 
 /-- the lexer fact behind the last slice: the token directly behind `/include`, if it is a String or Identifier
     token that starts with `"`, spans at least two bytes -/
@@ -54,8 +86,9 @@ theorem include_name_token (b : Bytes) (ts : List Lex.Token) (h : Lex.tokenize b
 /-! ### 2. loading through `/include` yields the flattened token stream -/
 
 /-- **inline expansion**: when the model succeeds, its (kind, text) sequence — the text of a token being the slice
-    of the content of the file with the token's file id — is `expand` of the main file: every `Include` token
-    followed by a String/Identifier token is replaced by the expansion of the named file, everything else is copied -/
+    of the content of the file with the token's file id — is `expand` of the main file (same depth budget): every
+    `Include` token followed by a String/Identifier token is replaced by the expansion of the named file, everything
+    else is copied -/
 theorem splice_eq_expand (fs : FS) (n : Nat) (fn : Filename) (b : Bytes) (r : TokenResult)
     (h : tokenize fs n fn 0 b = .ok r) :
     expand fs n fn.full b = some (r.tokens.map fun t => (t.ttype, tokText r.filedata 0 t)) := by
@@ -72,6 +105,12 @@ theorem splice_eq_expand_ids (fs : FS) (n : Nat) (fn : Filename) (fid : Nat) (b 
       some (r.tokens.map (fun t => (t.ttype, t.fileid, tokText r.filedata fid t)), fid + r.filedata.length) :=
   (tokenize_sim fs n fn fid b r h).2.1
 
+/-- the expansion does not depend on the budget once it exists: `expand fs n` is the expansion under every larger
+    budget -/
+theorem expand_budget_irrelevant (fs : FS) (n k : Nat) (base : Path) (b : Bytes) (out : List (TokType × Bytes))
+    (h : expand fs n base b = some out) : expand fs (n + k) base b = some out :=
+  expand_mono fs n k base b out h
+
 /-- a successful result contains no `Include` token: every directive has been resolved -/
 theorem ok_has_no_include (fs : FS) (n : Nat) (fn : Filename) (fid : Nat) (b : Bytes) (r : TokenResult)
     (h : tokenize fs n fn fid b = .ok r) : ∀ t ∈ r.tokens, t.ttype ≠ .include :=
@@ -80,16 +119,16 @@ theorem ok_has_no_include (fs : FS) (n : Nat) (fn : Filename) (fid : Nat) (b : B
 /-! ### 3. a missing include file is an error -/
 
 /-- **missing include**: the content tokenizes to `pre ++ inc :: nm :: post` with an `Include` token `inc` and a
-    name token `nm`, the directives in `pre` resolve (`Resolves`: the walk over `pre` succeeds), and the file named
-    by `nm` is not in the map.  Then the result is `IncludeFileError` with the line of `nm` and the name as written
-    (quotes stripped) — never a truncated token stream. -/
+    name token `nm`, the directives in `pre` resolve (`Resolves fs n`: the walk over `pre` under the budget `n`
+    succeeds), and the file named by `nm` is not in the map.  Then the result is `IncludeFileError` with the line of
+    `nm` and the name as written (quotes stripped) — never a truncated token stream.  For every depth budget. -/
 theorem missing_include_is_error (fs : FS) (n : Nat) (fn : Filename) (fid : Nat) (b : Bytes)
     (pre post : List Lex.Token) (inc nm : Lex.Token) (st1 : St)
     (hlex : Lex.tokenize b = .ok (pre ++ inc :: nm :: post))
     (hinc : inc.ttype = .include) (hnm : nm.ttype = .string ∨ nm.ttype = .identifier)
     (hpre : Resolves fs n fn fid b pre st1)
     (hmiss : fs (targetPath fs fn.full b nm) = none) :
-    tokenize fs (n + 1) fn fid b =
+    tokenize fs n fn fid b =
       .err (.IncludeFileError fn.display nm.line (nameAt b nm.startpos nm.endpos)) :=
   missing_include fs n fn fid b pre post inc nm st1 hlex hinc hnm hpre (by simp [load, target_full, hmiss])
 
@@ -116,16 +155,17 @@ theorem missing_first_include_is_error (fs : FS) (n : Nat) (fn : Filename) (fid 
     (hpre : ∀ t ∈ pre, t.ttype ≠ .include)
     (hinc : inc.ttype = .include) (hnm : nm.ttype = .string ∨ nm.ttype = .identifier)
     (hmiss : fs (targetPath fs fn.full b nm) = none) :
-    tokenize fs (n + 1) fn fid b =
+    tokenize fs n fn fid b =
       .err (.IncludeFileError fn.display nm.line (nameAt b nm.startpos nm.endpos)) :=
   missing_include_is_error fs n fn fid b pre post inc nm _ hlex hinc hnm (resolves_of_noInc fs n fn fid b pre hpre) hmiss
 
-/-- an error inside an included file is the result of the including file -/
+/-- an error inside an included file (tokenized with the budget `n`) is the result of the including file (budget
+    `n + 1`), unchanged -/
 theorem include_error_is_error (fs : FS) (n : Nat) (fn : Filename) (fid : Nat) (b : Bytes)
     (pre post : List Lex.Token) (inc nm : Lex.Token) (st1 : St) (data : Bytes) (e : Err)
     (hlex : Lex.tokenize b = .ok (pre ++ inc :: nm :: post))
     (hinc : inc.ttype = .include) (hnm : nm.ttype = .string ∨ nm.ttype = .identifier)
-    (hpre : Resolves fs n fn fid b pre st1)
+    (hpre : Resolves fs (n + 1) fn fid b pre st1)
     (hload : load fs (target fs fn b nm).full = some data)
     (herr : tokenize fs n (target fs fn b nm) st1.nextFileid data = .err e) :
     tokenize fs (n + 1) fn fid b = .err e :=
@@ -139,32 +179,103 @@ theorem reachable_missing_include_is_error (fs : FS) (n : Nat) (fn : Filename) (
     tokenize fs n fn fid b = .err e ∧ ∃ f line incname, e = .IncludeFileError f line incname :=
   ⟨reachesMissing_err fs n fn fid b e h, reachesMissing_is_includeFileError fs n fn fid b e h⟩
 
+/-! ### 3a. the depth limit is an error -/
+
+/-- **depth limit**: at budget `0` (`depth = MAX_INCLUDE_DEPTH`) a directive with a usable name — everything in
+    front of it resolving, which at budget `0` means: no directive in front of it — is the `IncludeFileError` of that
+    directive (file name of the current file, line of the name token, name as written), whether or not the named
+    file exists -/
+theorem depth_limit_is_error (fs : FS) (fn : Filename) (fid : Nat) (b : Bytes)
+    (pre post : List Lex.Token) (inc nm : Lex.Token)
+    (hlex : Lex.tokenize b = .ok (pre ++ inc :: nm :: post))
+    (hpre : ∀ t ∈ pre, t.ttype ≠ .include)
+    (hinc : inc.ttype = .include) (hnm : nm.ttype = .string ∨ nm.ttype = .identifier) :
+    tokenize fs 0 fn fid b =
+      .err (.IncludeFileError fn.display nm.line (nameAt b nm.startpos nm.endpos)) :=
+  depth_limit fs fn fid b pre post inc nm _ hlex hinc hnm (resolves_of_noInc fs 0 fn fid b pre hpre)
+
+/-- at budget `0` nothing else resolves: a resolving prefix contains no directive -/
+theorem resolves_at_limit (fs : FS) (fn : Filename) (fid : Nat) (b : Bytes) (pre : List Lex.Token) (st1 : St)
+    (h : Resolves fs 0 fn fid b pre st1) : ∀ t ∈ pre, t.ttype ≠ .include :=
+  resolves_zero fs fn fid b pre st1 h
+
+/-- **a chain of nested includes reaches the depth limit** (`ReachesLimit fs n`: a chain of `n` directives, each
+    the first unresolved one of its file and naming a loadable file, then a directive with a usable name in the file
+    with budget `0`): the result is the `IncludeFileError` of that last directive, handed up unchanged -/
+theorem reachable_depth_limit_is_error (fs : FS) (n : Nat) (fn : Filename) (fid : Nat) (b : Bytes) (e : Err)
+    (h : ReachesLimit fs n fn fid b e) :
+    tokenize fs n fn fid b = .err e ∧ ∃ f line incname, e = .IncludeFileError f line incname :=
+  ⟨reachesLimit_err fs n fn fid b e h, reachesLimit_is_includeFileError fs n fn fid b e h⟩
+
+/-- **the two sources of `IncludeFileError`**: every `IncludeFileError` result is that of a reachable missing file or
+    that of the depth limit (the converse: `reachable_missing_include_is_error`, `reachable_depth_limit_is_error`) -/
+theorem include_file_error_cases (fs : FS) (n : Nat) (fn : Filename) (fid : Nat) (b : Bytes) (f : Path) (line : Nat)
+    (incname : Path) (h : tokenize fs n fn fid b = .err (.IncludeFileError f line incname)) :
+    ReachesMissing fs n fn fid b (.IncludeFileError f line incname) ∨
+    ReachesLimit fs n fn fid b (.IncludeFileError f line incname) :=
+  includeFileError_cases fs n fn fid b f line incname h
+
 /-! ### 4. a directive without a file name is an error -/
 
 /-- **incomplete include**: an `Include` token that is the last token, or is followed by a token that is neither
     String nor Identifier (the directives in front of it resolving): `IncompleteIncludeError` with the line of the
-    `Include` token -/
+    `Include` token — for every depth budget, also `0`: the check comes before the depth test -/
 theorem incomplete_include_is_error (fs : FS) (n : Nat) (fn : Filename) (fid : Nat) (b : Bytes)
     (pre post : List Lex.Token) (inc : Lex.Token) (st1 : St)
     (hlex : Lex.tokenize b = .ok (pre ++ inc :: post))
     (hinc : inc.ttype = .include)
     (hpost : post = [] ∨ ∃ x rest, post = x :: rest ∧ ¬ (x.ttype = .string ∨ x.ttype = .identifier))
     (hpre : Resolves fs n fn fid b pre st1) :
-    tokenize fs (n + 1) fn fid b = .err (.IncompleteIncludeError fn.display inc.line) :=
+    tokenize fs n fn fid b = .err (.IncompleteIncludeError fn.display inc.line) :=
   incomplete_include fs n fn fid b pre post inc st1 hlex hinc hpost hpre
 
 /-! ### 5. a file that includes itself -/
 
-/-- **self include**: `main.a2l` with the content `/include "main.a2l"`: the model returns `.hang` for every fuel —
-    the recursion of the Rust code never ends (stack overflow; the known finding) -/
-theorem self_include_hangs (fs : FS) (hfs : fs mainName = some selfInc) (n fid : Nat) :
-    tokenize fs n { full := mainName, display := mainName } fid selfInc = .hang :=
-  self_include_hangs_aux fs hfs n _ fid rfl
+/-- **self include**: `main.a2l` with the content `/include "main.a2l"`.  For every depth budget `n` the result is
+    an `IncludeFileError`, not a stack overflow: the file is entered `n + 1` times; the innermost level (budget `0`)
+    refuses its directive with `IncludeFileError { filename: "main.a2l", line: 1, incname: "main.a2l" }` — file name
+    = display name of that level's file, which is the name written in the directive; line = line of the name token —
+    and every level above hands this error on unchanged (`?`).  With the entry point's budget 64: 65 levels. -/
+theorem self_include_is_error (fs : FS) (hfs : fs mainName = some selfInc) (n fid : Nat) :
+    tokenize fs n { full := mainName, display := mainName } fid selfInc =
+      .err (.IncludeFileError mainName 1 mainName) := by
+  rw [self_include_aux fs hfs n _ fid rfl]
+  simp
 
-/-- `.hang` is the only outcome that depends on the fuel -/
-theorem fuel_irrelevant (fs : FS) (n k : Nat) (fn : Filename) (fid : Nat) (b : Bytes)
-    (h : tokenize fs n fn fid b ≠ .hang) : tokenize fs (n + k) fn fid b = tokenize fs n fn fid b :=
-  tokenize_fuel_mono fs n k fn fid b h
+/-- the same when the outermost file is displayed under another name `disp`: the error carries the name of the
+    innermost level — `disp` only if there is no nested level at all (`n = 0`) -/
+theorem self_include_is_error_display (fs : FS) (hfs : fs mainName = some selfInc) (n fid : Nat) (disp : Path) :
+    tokenize fs n { full := mainName, display := disp } fid selfInc =
+      .err (.IncludeFileError (if n = 0 then disp else mainName) 1 mainName) :=
+  self_include_aux fs hfs n _ fid rfl
+
+/-- it is the error of the depth limit -/
+theorem self_include_reaches_limit (fs : FS) (hfs : fs mainName = some selfInc) (n fid : Nat) :
+    ReachesLimit fs n { full := mainName, display := mainName } fid selfInc
+      (.IncludeFileError mainName 1 mainName) := by
+  have := self_include_limit_aux fs hfs n { full := mainName, display := mainName } fid rfl
+  simpa using this
+
+/-! ### 5a. the depth budget -/
+
+/-- **the budget only matters for `IncludeFileError`**: a result with budget `n` that is not an `IncludeFileError` —
+    a token vector, a lexer error, an `IncompleteIncludeError` — is the result with every larger budget -/
+theorem depth_budget_irrelevant (fs : FS) (n k : Nat) (fn : Filename) (fid : Nat) (b : Bytes)
+    (h : ∀ f line incname, tokenize fs n fn fid b ≠ .err (.IncludeFileError f line incname)) :
+    tokenize fs (n + k) fn fid b = tokenize fs n fn fid b :=
+  tokenize_budget_mono fs n k fn fid b h
+
+/-- in particular a successful result -/
+theorem ok_budget_irrelevant (fs : FS) (n k : Nat) (fn : Filename) (fid : Nat) (b : Bytes) (r : TokenResult)
+    (h : tokenize fs n fn fid b = .ok r) : tokenize fs (n + k) fn fid b = .ok r := by
+  rw [tokenize_budget_mono fs n k fn fid b (by rw [h]; intro f l i hh; cases hh), h]
+
+/-- **the `IncludeFileError` of a reachable missing file is the result with every larger budget** (the remaining
+    case, by `include_file_error_cases`, is the error of the depth limit, which does depend on the budget: see the
+    examples below) -/
+theorem missing_include_budget_irrelevant (fs : FS) (n k : Nat) (fn : Filename) (fid : Nat) (b : Bytes) (e : Err)
+    (h : ReachesMissing fs n fn fid b e) : tokenize fs (n + k) fn fid b = .err e :=
+  reachesMissing_err fs (n + k) fn fid b e (reachesMissing_mono fs n k fn fid b e h)
 
 /-! ### 6. file ids -/
 
@@ -191,11 +302,13 @@ theorem expand_ids (fs : FS) (n : Nat) (base : Path) (fid : Nat) (b : Bytes) (ou
     fid < next' ∧ ∀ i ∈ out, fid ≤ i.2.1 ∧ i.2.1 < next' :=
   expandI_ids fs n base fid b out next' h
 
+/-- the blocks of the directives of one file with the depth budget `n` (`deeperI fs n`: the recursive call of
+    `expandI`, none at budget `0`, `expandI fs m` at `m + 1`) -/
 theorem expand_ids_blocks (fs : FS) (n : Nat) (base : Path) (b : Bytes) (fid : Nat) (lt : List Lex.Token)
     (next : Nat) (out : List Item) (next' : Nat)
-    (h : expandIToks (expandI fs n) fs base b fid lt next = some (out, next')) :
+    (h : expandIToks (deeperI fs n) fs base b fid lt next = some (out, next')) :
     next ≤ next' ∧ ∀ i ∈ out, i.2.1 = fid ∨ (next ≤ i.2.1 ∧ i.2.1 < next') :=
-  expandIToks_ids _ fs base b fid (expandI_ids fs n) lt next out next' h
+  expandIToks_ids _ fs base b fid (deeperI_ids fs n) lt next out next' h
 
 /-! ### non-vacuity -/
 
@@ -213,8 +326,8 @@ def exFs : FS := fun p =>
   if p = pMain then some exMain else if p = pX then some exX else if p = pY then some exY else none
 
 /-- a nested include (quoted name with `\`, unquoted name relative to the including file): `a d c b` with the file
-    ids `0 2 1 0`; the display names are the names as written -/
-example : tokenize exFs 3 { full := pMain, display := pMain } 0 exMain = .ok
+    ids `0 2 1 0`; the display names are the names as written.  Two levels below the main file: budget 2 suffices -/
+def exResult : TokenResult :=
     { tokens := [{ ttype := .identifier, startpos := 0, endpos := 1, fileid := 0, line := 1 },
                  { ttype := .identifier, startpos := 0, endpos := 1, fileid := 2, line := 1 },
                  { ttype := .identifier, startpos := 15, endpos := 16, fileid := 1, line := 1 },
@@ -222,18 +335,71 @@ example : tokenize exFs 3 { full := pMain, display := pMain } 0 exMain = .ok
       filedata := [exMain, exX, exY],
       filenames := [{ full := pMain, display := pMain },
                     { full := pX, display := [115, 92, 120, 46, 97, 50, 108] },
-                    { full := pY, display := [121, 46, 97, 50, 108] }] } := by decide +kernel
+                    { full := pY, display := [121, 46, 97, 50, 108] }] }
 
-example : expand exFs 3 pMain exMain =
+theorem exMain_budget2 : tokenize exFs 2 { full := pMain, display := pMain } 0 exMain = .ok exResult := by
+  decide +kernel
+
+/-- the same with the entry point's budget 64 (`ok_budget_irrelevant`) -/
+example : tokenizeTop exFs { full := pMain, display := pMain } 0 exMain = .ok exResult :=
+  ok_budget_irrelevant exFs 2 62 _ 0 exMain _ exMain_budget2
+
+example : expand exFs 2 pMain exMain =
     some [(.identifier, #[97]), (.identifier, #[100]), (.identifier, #[99]), (.identifier, #[98])] := by
   decide +kernel
 
-example : expandI exFs 3 pMain 0 exMain =
+example : expandI exFs 2 pMain 0 exMain =
     some ([(.identifier, 0, #[97]), (.identifier, 2, #[100]), (.identifier, 1, #[99]), (.identifier, 0, #[98])], 3) := by
   decide +kernel
 
-/-- with fuel 2 the third level is not reached: `.hang` (and only `.hang` depends on the fuel) -/
-example : tokenize exFs 2 { full := pMain, display := pMain } 0 exMain = .hang := by decide +kernel
+/-- **the depth error depends on the budget**: with budget 1 the directive of `s\x.a2l` (budget 0) is refused — the
+    error names that file and its line although `s/y.a2l` exists; with budget 0 the directive of the main file is
+    refused.  With budget 2 the result is a token vector (above). -/
+example : tokenize exFs 1 { full := pMain, display := pMain } 0 exMain =
+    .err (.IncludeFileError [115, 92, 120, 46, 97, 50, 108] 1 [121, 46, 97, 50, 108]) := by decide +kernel
+example : tokenize exFs 0 { full := pMain, display := pMain } 0 exMain =
+    .err (.IncludeFileError pMain 1 [115, 92, 120, 46, 97, 50, 108]) := by decide +kernel
+example : expand exFs 1 pMain exMain = none := by decide +kernel
+
+/-- hence the former `fuel_irrelevant` (“a result other than `.hang` does not depend on the first argument”) is false
+    for the new code: the hypothesis of `depth_budget_irrelevant` cannot be weakened to `≠ .hang` -/
+theorem old_fuel_irrelevant_is_false :
+    ¬ ∀ (fs : FS) (n k : Nat) (fn : Filename) (fid : Nat) (b : Bytes),
+      tokenize fs n fn fid b ≠ .hang → tokenize fs (n + k) fn fid b = tokenize fs n fn fid b := by
+  intro h
+  have h1 := h exFs 1 1 { full := pMain, display := pMain } 0 exMain (by decide +kernel)
+  revert h1
+  decide +kernel
+
+/-- and the former `self_include_hangs` is false for the new code (for every budget: `self_include_is_error`) -/
+theorem old_self_include_hangs_is_false :
+    ¬ ∀ (fs : FS), fs mainName = some selfInc → ∀ n fid : Nat,
+      tokenize fs n { full := mainName, display := mainName } fid selfInc = .hang := by
+  intro h
+  have h1 := h (fun _ => some selfInc) rfl 0 0
+  rw [self_include_is_error (fun _ => some selfInc) rfl 0 0] at h1
+  cases h1
+
+/-- the self-including file at the entry point (budget 64), and computed for a small budget -/
+example : tokenizeTop (fun _ => some selfInc) { full := mainName, display := mainName } 0 selfInc =
+    .err (.IncludeFileError mainName 1 mainName) := self_include_is_error _ rfl 64 0
+example : tokenize (fun _ => some selfInc) 3 { full := mainName, display := mainName } 0 selfInc =
+    .err (.IncludeFileError mainName 1 mainName) := by decide +kernel
+
+/-- a cycle of two files: `a.a2l` = `/include b.a2l`, `b.a2l` = `x /include a.a2l` (second line).  The error names the
+    file of the innermost level: with an odd budget that is `b.a2l` (line 2), with an even one `a.a2l` (line 1) -/
+def pA : Path := [97, 46, 97, 50, 108]
+def pB : Path := [98, 46, 97, 50, 108]
+def cycA : Bytes := #[47, 105, 110, 99, 108, 117, 100, 101, 32, 98, 46, 97, 50, 108]
+def cycB : Bytes := #[120, 10, 47, 105, 110, 99, 108, 117, 100, 101, 32, 97, 46, 97, 50, 108]
+def cycFs : FS := fun p => if p = pA then some cycA else if p = pB then some cycB else none
+
+example : tokenize cycFs 3 { full := pA, display := pA } 0 cycA = .err (.IncludeFileError pB 2 pA) := by
+  decide +kernel
+example : tokenize cycFs 4 { full := pA, display := pA } 0 cycA = .err (.IncludeFileError pA 1 pB) := by
+  decide +kernel
+example : tokenizeTop cycFs { full := pA, display := pA } 0 cycA = .err (.IncludeFileError pA 1 pB) := by
+  decide +kernel
 
 /-- `a /include nope.a2l` -/
 example : tokenize exFs 3 { full := pMain, display := pMain } 0
@@ -247,7 +413,7 @@ example : tokenize exFs 3 { full := pMain, display := pMain } 0
     #[47, 105, 110, 99, 108, 117, 100, 101, 32, 47, 98, 101, 103, 105, 110] =
     .err (.IncompleteIncludeError pMain 1) := by decide +kernel
 
-/-- the hypothesis of `self_include_hangs` is satisfiable -/
+/-- the hypothesis of `self_include_is_error` is satisfiable -/
 example : ∃ fs : FS, fs mainName = some selfInc := ⟨fun _ => some selfInc, rfl⟩
 
 /-- `lex_quoteOk` is about the token *behind `/include`* only: in `/begin A2ML"/end A2ML` the A2ML block token is
